@@ -682,7 +682,7 @@ pub fn run(tier: &Tier, args: &[String]) -> i32 {
                     for (name, body) in json_mutations(&valid, thorough) {
                         cases.push((
                             Case { part: "api-body".into(), target: target.clone(), mutation: name },
-                            Call { method: route.method.into(), path: std_fill(route.path), bearer: Some("secret".into()), body, unix_user: None },
+                            Call { method: route.method.into(), path: std_fill(route.path), bearer: Some("secret".into()), body, unix_user: None, authorization: None },
                         ));
                     }
                     // cross-wired: every other fixture body
@@ -690,7 +690,7 @@ pub fn run(tier: &Tier, args: &[String]) -> i32 {
                         if other != bname {
                             cases.push((
                                 Case { part: "api-body".into(), target: target.clone(), mutation: format!("cross:{other}") },
-                                Call { method: route.method.into(), path: std_fill(route.path), bearer: Some("secret".into()), body: serde_json::to_vec(v).unwrap(), unix_user: None },
+                                Call { method: route.method.into(), path: std_fill(route.path), bearer: Some("secret".into()), body: serde_json::to_vec(v).unwrap(), unix_user: None, authorization: None },
                             ));
                         }
                     }
@@ -707,7 +707,7 @@ pub fn run(tier: &Tier, args: &[String]) -> i32 {
                         let body = route.body.and_then(|b| bodies.get(b)).map(|v| serde_json::to_vec(v).unwrap()).unwrap_or_default();
                         cases.push((
                             Case { part: "api-path".into(), target: target.clone(), mutation: format!("{param}={seg}") },
-                            Call { method: route.method.into(), path, bearer: Some("secret".into()), body, unix_user: None },
+                            Call { method: route.method.into(), path, bearer: Some("secret".into()), body, unix_user: None, authorization: None },
                         ));
                     }
                 }
@@ -717,12 +717,12 @@ pub fn run(tier: &Tier, args: &[String]) -> i32 {
                 for (mname, m) in tiny_inputs(false) {
                     cases.push((
                         Case { part: "api-raw".into(), target: name.into(), mutation: mname },
-                        Call { method: "POST".into(), path: path.into(), bearer: None, body: m, unix_user: None },
+                        Call { method: "POST".into(), path: path.into(), bearer: None, body: m, unix_user: None, authorization: None },
                     ));
                 }
                 cases.push((
                     Case { part: "api-raw".into(), target: name.into(), mutation: "oversize".into() },
-                    Call { method: "POST".into(), path: path.into(), bearer: None, body: vec![0x30; 120 * 1024 * 1024 / 16], unix_user: None },
+                    Call { method: "POST".into(), path: path.into(), bearer: None, body: vec![0x30; 120 * 1024 * 1024 / 16], unix_user: None, authorization: None },
                 ));
             }
             // whole-path menu
@@ -730,7 +730,7 @@ pub fn run(tier: &Tier, args: &[String]) -> i32 {
                 for method in ["GET", "POST", "DELETE", "PUT", "PATCH", "OPTIONS", "HEAD"] {
                     cases.push((
                         Case { part: "api-path".into(), target: "whole-path".into(), mutation: format!("{method} {p}") },
-                        Call { method: method.into(), path: p.into(), bearer: Some("secret".into()), body: vec![], unix_user: None },
+                        Call { method: method.into(), path: p.into(), bearer: Some("secret".into()), body: vec![], unix_user: None, authorization: None },
                     ));
                 }
             }
